@@ -89,6 +89,8 @@ bool class_in_scope(const std::string &prop, const std::string &cls, int mode, b
   if (prop == "C13") {
     if (cls == "fit") return true;
     if (mode == M_FIT) return cls == "offset" || (cls == "ret" && expect_fail == FR_NONE);
+    // "chunk sizes below 2 disable fitting": plain code is expected again once fitting was switched off
+    if (mode == M_PLAIN && t_fit_history) return cls == "bytes" || cls == "offset";
     return false;
   }
   if (prop == "C14") return mode == M_COUNT && model_cls;
@@ -127,7 +129,8 @@ struct TaskRt {
   bool done = false;
 };
 
-static thread_local int t_cur_ti = 0;  // the task the current thread is executing (threads in fine mode)
+static thread_local int t_cur_ti = 0;
+static thread_local bool t_fit_history = false;  // the instance of the current operation had fitting switched on earlier  // the task the current thread is executing (threads in fine mode)
 
 struct Run {
   const Plan *p = nullptr;
@@ -459,6 +462,7 @@ static void exec_asm(Run &R, TaskRt &T, int ti, int oi, const Op &op) {
     a.c = m.chunk;
   }
   const uint64_t sk = state_key(I);
+  t_fit_history = m.ever_fit;
 
   // snapshot for the prefix check
   CodeView before = view_code(R, T, I);
